@@ -273,16 +273,12 @@ def r6(ctx):
                 inc = False
                 if am:
                     clo = closure_of(ctx, e[2][1])
+                    zc = symbolizer(clo)
                     for s in clo.stmts():
-                        if s.kind == 'assign' and s.lhs.proj and match(core(sym(clo, s.rv.ops[0]) if s.rv.kind == 'use' and s.rv.ops else ()), ('bin', 'Add', ANY, Const(1))):
-                            inc = True
-                        if s.kind == 'assign' and s.rv.kind == 'bin':
-                            pass
-                    if not inc:
-                        for s in clo.stmts():
-                            if s.kind == 'assign' and s.lhs.proj:
-                                vv = core(sym(clo, s.lhs))
-                        inc = any(s.kind == 'assign' and s.lhs.proj for s in clo.stmts())
+                        if s.kind == 'assign' and s.lhs.proj:
+                            val = core(simplify(zc.rvalue(s.rv, 0, ())))
+                            if match(val, ('bin', 'Add', ANY, Const(1))):
+                                inc = True
                 ctx.require(am and inc, x, 'occurrence-count', 'a repeated occurrence of the pair in the same word adds 1 to its count (line %d)' % t.span['line'],
                             'the occurrence count of a pair in a word is set to 1 and never incremented (line %d): a pair that occurs twice in a word is recorded once, '
                             'update_stats then drives the count to 0 while the pair is still there and replace_pair skips the word' % t.span['line'], t.span)
